@@ -159,11 +159,20 @@ Definition is_authenticated (e : env) (st : state) : outcome * state * list N :=
     else ia_tls_stage e (set_relay st (if Z.ltb 0 ipbl then 1 else 2)) [LB]
   else ia_tls_stage e st [].
 
-(** a sequence of calls on one connection; it ends with the call that does not return *)
-Inductive op := OpVerify | OpIsAuth.
+(** what freedata() (qsmtpd/qsmtpd.c; end of every mail transaction: RSET, HELO/EHLO, after DATA, a new MAIL FROM) does to
+    this state: free(xmitstat.tlsclient); xmitstat.tlsclient = NULL.  relayclient and ssl_verified are per connection. *)
+Definition freedata (st : state) : state :=
+  {| verified := verified st; tlsclient := None; relay := relay st |}.
+
+(** a sequence of events on one connection; it ends with the call that does not return *)
+Inductive op := OpVerify | OpIsAuth | OpFree.
 
 Definition call (o : op) (e : env) (st : state) : outcome * state * list N :=
-  match o with OpVerify => tls_verify e st | OpIsAuth => is_authenticated e st end.
+  match o with
+  | OpVerify => tls_verify e st
+  | OpIsAuth => is_authenticated e st
+  | OpFree => (Ret 0, freedata st, [])
+  end.
 
 Fixpoint run (cs : list (op * env)) (st : state) : list (outcome * state * list N) :=
   match cs with
